@@ -276,7 +276,7 @@ func (e *Engine) guessArraySort(name string) Sort {
 		return ArrSort(ArrSort(SBool))
 	case strings.HasPrefix(name, "mapcard:"):
 		return ArrSort(SInt)
-	case name == "ghost.sent":
+	case name == "ghost.sent", name == "ghost.delivered":
 		return ArrSort(ArrSort(SInt))
 	case strings.HasPrefix(name, "ghost.gauge"):
 		return ArrSort(SInt)
